@@ -90,7 +90,7 @@ def _master_subs(tier):
     subs = []
     for back in ('plain', 'edited_then_up', 'up_then_edited', 'failover',
                  'failover_edited'):
-        for gap in (600, 3 * RET):
+        for gap in (600, 3 * RET, 'sym'):
             for recs in ([[0], []], [[0], [0]], [[0], [1]]):
                 # capacities / demands concrete (two regimes): time is the
                 # subject here
@@ -101,7 +101,7 @@ def _master_subs(tier):
                             'apps': [{'recorded': r, 'memory': 3,
                                       'retention': '%ds' % RET}
                                      for r in recs]}
-                    subs.append(('master-second_outage-%s-gap%d-%s-cap%d%d' % (
+                    subs.append(('master-second_outage-%s-gap%s-%s-cap%d%d' % (
                         back, gap, ''.join(
                             str(len(r)) + (str(r[0]) if r else '')
                             for r in recs), cap[0], cap[1]), spec))
@@ -194,7 +194,11 @@ def _master_harness(S, spec):
     cycle(':start')
     down(0)
     cycle(':first_outage')
-    g2.VT.now += spec['gap']
+    if spec['gap'] == 'sym':
+        # every interval of the history is a solver variable
+        g2.VT.now = g2.VT.now + S.int('gap_first_outage', 1, 4 * RET)
+    else:
+        g2.VT.now += spec['gap']
     cycle(':first_outage_later')
     back = spec['back']
     if back == 'plain':
@@ -218,14 +222,22 @@ def _master_harness(S, spec):
         g2.start(W, m)
     down_since.pop('s0', None)
     cycle(':back')
-    g2.VT.now += 5 * RET
-    cycle(':back_later')
-    down(0)
-    cycle(':second_outage')
-    g2.VT.now += RET // 2
-    cycle(':second_outage_half')
-    g2.VT.now += RET
-    cycle(':second_outage_over')
+    if spec['gap'] == 'sym':
+        g2.VT.now = g2.VT.now + S.int('gap_up', 1, 6 * RET)
+        cycle(':back_later')
+        down(0)
+        cycle(':second_outage')
+        g2.VT.now = g2.VT.now + S.int('gap_second_outage', 1, 2 * RET)
+        cycle(':second_outage_later')
+    else:
+        g2.VT.now += 5 * RET
+        cycle(':back_later')
+        down(0)
+        cycle(':second_outage')
+        g2.VT.now += RET // 2
+        cycle(':second_outage_half')
+        g2.VT.now += RET
+        cycle(':second_outage_over')
     S.reach('scheduled')
     S.reach('master_level')
 
